@@ -12,20 +12,35 @@
          Scc.Core.Unique (`UniqueBinders`, checker).
 
   PROVED here (full): the second sentence — `C03_unique_binders` (+ `_global`, checker soundness).
-  PROVED (partial, first sentence): `C03_focus_follows_sigma` (static focusing lifts exactly the
-  argument the ς-rule lifts and continues with the same residual statement, with identical counter
-  threading), `C03_machines_agree` (the focused machine is the ς-machine restricted to focused
-  programs, step for step), and the per-form lemmas of `bind` on the focused machine
-  (Scc.Core.ProofsBindSteps: `fsStep_bind_lit/_op/_ctor/_cocase/_mu_data/_mu_codata`, `bind_var`):
-  "`bind t k` evaluates `t` once (data, integers) resp. suspends it (codata), binds the fresh
-  variable and continues with `k x`".
-  NOT proved: `C03_uniquify_alpha`, `C03_focus_sem` (kept below as `def … : Prop`): they need an
-  α-equivalence/renaming simulation for the machine (focus (ς s) and focus s differ in the name of
-  the lifted variable and in the numbering of all later generated names); what is missing is
-  (1) "the focused machine is invariant under consistent renaming of bound names",
-  (2) "focusStmt s n and focusStmt s n' are α-equivalent for counters above all ids of s",
-  (3) the same two facts for uniquify's name-based substitution.  Executable evidence instead: the
-  three machines agree on 42 programs × several argument tuples × fuels (see report).
+  PROVED (first sentence, for all arguments and all fuel):
+   * `C03_focus_sem_panicFree` / `C03_focus_sem_typesDisjoint` = `C03_focus_sem` (T4) and
+     `C03_statement_panicFree` / `C03_statement_typesDisjoint` = `C03_statement`, under ONE extra
+     decidable hypothesis: `p.focusPanicFree = true` (the check `focusProgE` performs on every
+     program), resp. `typesDisjoint p = true` (no name declared both as data and as codata type; it
+     implies `focusPanicFree` for well-typed programs, Scc.Pipeline.FocusNoPanic).  Without it
+     `Input p` does not exclude a cut `⟨K(..) | D(..)⟩` (typable iff its type name is declared twice),
+     on which Rust's `Xtor::focus` panics.  `C03_focus_sem_fuel`: the behaviours are EQUAL, the
+     focused machine never needs more fuel.
+   * `C03_focusOnly_sem` (static focusing alone ≈ the ς-rules: for every program passing the
+     executable check `focusReady`, no typing needed), `C03_focusOnly_sem_alpha` (the same up to an
+     α-equivalence of the two programs).
+   * `C03_uniquify_alpha_static`: `uniquify` is an α-renaming (equal nameless forms, definition-wise).
+  Proof (Scc.Core.ProofsAlpha*, ProofsSplit, ProofsSigmaFocus, ProofsFocusSim*, ProofsUniqAlpha*):
+  α-equivalence = equality of nameless (de Bruijn) images `dbS scope stmt`;
+  `focusStmt_cong` (focusing respects α-equivalence and is independent of the name counter),
+  `sigma_focus` (focus ⟨t | μ~ς.S[ς]⟩ ≡α focus S[t]), a stuttering simulation between `Core.run` and
+  `Core.fsRun` indexed by the two environments' key lists (`FocusSim.SRel`), a measure for the
+  ς-steps, and the renaming lemma for `uniquify`'s chirality-split substitution (`ren_stmt`, needs
+  typing: a variable occurrence must have the chirality of its binder).
+  Earlier partial results kept: `C03_focus_follows_sigma`, `C03_machines_agree`, `C03_bind_mu_*`.
+  REFUTED: `C03_statement` and `C03_focus_sem` as literally stated (kept below as `def … : Prop`) are
+  FALSE — `C03_statement_refuted`, `C03_focus_sem_refuted` (counterexample `badProg`: `T` declared
+  as data and as codata type, `⟨K(μa.print 1;…) | D(μb.print 2;…)⟩` is well-typed, the ς-machine
+  prints 1 and 2, the focused program (model: `panicTerm`; Rust: panic in `Xtor::focus`) only 1).
+  They hold with the hypothesis `focusPanicFree` / `typesDisjoint` (see above).
+  `C03_uniquify_alpha` IS a theorem: `C03_uniquify_alpha_proved` (even `C03_uniquify_run_eq`: equal
+  behaviours for every fuel; lock-step simulation of the ς-machine under α-equivalence,
+  Scc.Core.ProofsAlphaSim*: `C03_machine_alpha_invariant`).
 -/
 import Scc.Core.Sem
 import Scc.Core.Typing
@@ -34,6 +49,10 @@ import Scc.Core.ProofsFocusSigma
 import Scc.Core.ProofsEmbed
 import Scc.Core.ProofsBindSteps
 import Scc.Core.ProofsFocusSem
+import Scc.Core.ProofsUniqAlphaD
+import Scc.Core.ProofsUniqAlphaE
+import Scc.Core.ProofsAlphaSimC
+import Scc.Pipeline.FocusNoPanic
 
 namespace Scc.Core
 
@@ -277,6 +296,312 @@ theorem C03_focus_cong (sc sc' : List Ident) (s s' : Stmt) (n n' : Nat)
     dbS sc (focusStmt s n).1.embed = dbS sc' (focusStmt s' n').1.embed :=
   focusStmt_cong h hf hf'
 
+/-! ## proved: C03's first sentence for well-typed programs on which `focus` does not panic -/
+
+mutual
+  theorem Term.noSigma_idents : (t : Term) → t.noSigma = true → ∀ i ∈ t.idents, i.name ≠ "ς"
+    | .var pc v ty, h => by
+      simp only [Term.noSigma, bne_iff_ne] at h
+      simpa [Term.idents] using h
+    | .lit k, _ => by simp [Term.idents]
+    | .op a o b, h => by
+      simp only [Term.noSigma, Bool.and_eq_true] at h
+      intro i hi
+      simp only [Term.idents, List.mem_append] at hi
+      rcases hi with hi | hi
+      · exact Term.noSigma_idents a h.1 i hi
+      · exact Term.noSigma_idents b h.2 i hi
+    | .mu pc v ty s, h => by
+      simp only [Term.noSigma, Bool.and_eq_true, bne_iff_ne] at h
+      intro i hi
+      simp only [Term.idents, List.mem_cons] at hi
+      rcases hi with rfl | hi
+      · exact h.1
+      · exact Stmt.noSigma_idents s h.2 i hi
+    | .xtor pc k as ty, h => by
+      simp only [Term.noSigma] at h
+      simpa [Term.idents] using Args.noSigma_idents as h
+    | .xcase pc ty cl, h => by
+      simp only [Term.noSigma] at h
+      simpa [Term.idents] using Clauses.noSigma_idents cl h
+  theorem Args.noSigma_idents : (as : Args) → as.noSigma = true → ∀ i ∈ as.idents, i.name ≠ "ς"
+    | .nil, _ => by simp [Args.idents]
+    | .cons pc t r, h => by
+      simp only [Args.noSigma, Bool.and_eq_true] at h
+      intro i hi
+      simp only [Args.idents, List.mem_append] at hi
+      rcases hi with hi | hi
+      · exact Term.noSigma_idents t h.1 i hi
+      · exact Args.noSigma_idents r h.2 i hi
+  theorem Clauses.noSigma_idents : (cl : Clauses) → cl.noSigma = true →
+      ∀ i ∈ cl.idents, i.name ≠ "ς"
+    | .nil, _ => by simp [Clauses.idents]
+    | .cons x ctx b r, h => by
+      simp only [Clauses.noSigma, Bool.and_eq_true, List.all_eq_true, bne_iff_ne] at h
+      intro i hi
+      simp only [Clauses.idents, List.mem_append] at hi
+      rcases hi with (hi | hi) | hi
+      · simp only [ctxVars, List.mem_map] at hi
+        obtain ⟨b', hb', rfl⟩ := hi
+        exact h.1.1 b' hb'
+      · exact Stmt.noSigma_idents b h.1.2 i hi
+      · exact Clauses.noSigma_idents r h.2 i hi
+  theorem Stmt.noSigma_idents : (s : Stmt) → s.noSigma = true → ∀ i ∈ s.idents, i.name ≠ "ς"
+    | .cut ty p c, h => by
+      simp only [Stmt.noSigma, Bool.and_eq_true] at h
+      intro i hi
+      simp only [Stmt.idents, List.mem_append] at hi
+      rcases hi with hi | hi
+      · exact Term.noSigma_idents p h.1 i hi
+      · exact Term.noSigma_idents c h.2 i hi
+    | .ifc srt a b t e, h => by
+      simp only [Stmt.noSigma, Bool.and_eq_true] at h
+      intro i hi
+      simp only [Stmt.idents, List.mem_append] at hi
+      rcases hi with ((hi | hi) | hi) | hi
+      · exact Term.noSigma_idents a h.1.1.1 i hi
+      · exact Term.noSigma_idents b h.1.1.2 i hi
+      · exact Stmt.noSigma_idents t h.1.2 i hi
+      · exact Stmt.noSigma_idents e h.2 i hi
+    | .ifz srt a t e, h => by
+      simp only [Stmt.noSigma, Bool.and_eq_true] at h
+      intro i hi
+      simp only [Stmt.idents, List.mem_append] at hi
+      rcases hi with (hi | hi) | hi
+      · exact Term.noSigma_idents a h.1.1 i hi
+      · exact Stmt.noSigma_idents t h.1.2 i hi
+      · exact Stmt.noSigma_idents e h.2 i hi
+    | .print nl a n, h => by
+      simp only [Stmt.noSigma, Bool.and_eq_true] at h
+      intro i hi
+      simp only [Stmt.idents, List.mem_append] at hi
+      rcases hi with hi | hi
+      · exact Term.noSigma_idents a h.1 i hi
+      · exact Stmt.noSigma_idents n h.2 i hi
+    | .call f as ty, h => by
+      simp only [Stmt.noSigma] at h
+      simpa [Stmt.idents] using Args.noSigma_idents as h
+    | .exit a ty, h => by
+      simp only [Stmt.noSigma] at h
+      simpa [Stmt.idents] using Term.noSigma_idents a h
+end
+
+/-- the C03 inputs are acceptable to the simulation: every body has no panicking cut, chirality
+    flags agree with positions (typing), no `ς` -/
+theorem Input.oks {p : Prog} (h : Input p) (hpf : p.focusPanicFree = true) :
+    ∀ d ∈ p.defs, FocusSim.OKS 0 d.body := by
+  intro d hd
+  have ht := h.typed
+  simp only [Prog.wellTyped, List.all_eq_true] at ht
+  simp only [Prog.focusPanicFree, Bool.and_eq_true, List.all_eq_true] at hpf
+  have hns := h.noSigma
+  simp only [Prog.noSigma, List.all_eq_true, Bool.and_eq_true] at hns
+  refine ⟨hpf.2 d hd, (stmt_check_chi p d.body d.ctx (ht d hd)).1, ?_⟩
+  intro i hi hn
+  exact absurd hn (Stmt.noSigma_idents d.body (hns d hd).2 i hi)
+
+/-- **`uniquify` is an α-renaming** (T2, static form): on C03's inputs the definitions of
+    `uniquifyProg p` have the same nameless forms as those of `p` -/
+theorem C03_uniquify_alpha_static (p : Prog) (h : Input p) :
+    DefsAlpha p.defs (uniquifyProg p).defs :=
+  (uniquifyProg_alpha p (uniqInput_of_typed p h.typed h.bindersZero h.occsOld)).1
+
+theorem Input.focusInput {p : Prog} (h : Input p) (hpf : p.focusPanicFree = true) :
+    FocusInput p (uniquifyProg p) :=
+  uniquify_focusInput p (uniqInput_of_typed p h.typed h.bindersZero h.occsOld) (h.oks hpf)
+
+/-- **C03, first sentence (T4 = `C03_focus_sem`), for every input on which `focus` does not panic**
+    (`focusPanicFree`: the executable check `focusProgE` performs; it is implied by typing when no
+    name is declared both as a data and as a codata type, see `C03_focus_sem_typesDisjoint`).
+    All arguments, all fuel; the behaviours are even equal, the focused machine using at most as
+    much fuel (`C03_focus_sem_fuel`). -/
+theorem C03_focus_sem_panicFree (p : Prog) (h : Input p) (hpf : p.focusPanicFree = true)
+    (args : List (BitVec 64)) : ObsEq (run p args) (fsRun (focusProg p) args) :=
+  C03_focusOnly_sem_alpha p (uniquifyProg p) (h.focusInput hpf) args
+
+theorem C03_focus_sem_fuel (p : Prog) (h : Input p) (hpf : p.focusPanicFree = true)
+    (args : List (BitVec 64)) :
+    (∀ f, ∃ f', f' ≤ f ∧ fsRun (focusProg p) args f' = run p args f) ∧
+    (∀ f', ∃ f, run p args f = fsRun (focusProg p) args f') :=
+  focusOnly_sim_run (h.focusInput hpf) args
+
+/-- C03's first sentence for well-typed programs in which no name is declared both as a data and
+    as a codata type (what fun2core produces: `C12_link_fun2core`) -/
+theorem C03_focus_sem_typesDisjoint (p : Prog) (h : Input p)
+    (hd : Scc.Pipeline.typesDisjoint p = true) (args : List (BitVec 64)) :
+    ObsEq (run p args) (fsRun (focusProg p) args) :=
+  C03_focus_sem_panicFree p h (Scc.Pipeline.focusPanicFree_of_wellTyped hd h.typed) args
+
+/-- **C03 at full strength** for inputs with disjoint data / codata type names: both sentences -/
+theorem C03_statement_typesDisjoint (p : Prog) (h : Input p)
+    (hd : Scc.Pipeline.typesDisjoint p = true) :
+    (∀ args, ObsEq (run p args) (fsRun (focusProg p) args)) ∧
+    (∀ d ∈ (focusProg p).defs, UniqueBinders (focusProg p).maxId d) :=
+  ⟨C03_focus_sem_typesDisjoint p h hd, C03_unique_binders p h.bindersZero h.occsOld⟩
+
+/-- … and for inputs on which `focus` does not panic -/
+theorem C03_statement_panicFree (p : Prog) (h : Input p) (hpf : p.focusPanicFree = true) :
+    (∀ args, ObsEq (run p args) (fsRun (focusProg p) args)) ∧
+    (∀ d ∈ (focusProg p).defs, UniqueBinders (focusProg p).maxId d) :=
+  ⟨C03_focus_sem_panicFree p h hpf, C03_unique_binders p h.bindersZero h.occsOld⟩
+
+/-! ## uniquify, semantically -/
+
+theorem Input.ctxNames {p : Prog} (h : Input p) :
+    ∀ d ∈ p.defs, AllN (· ≠ "ς") (ctxVars d.ctx) := by
+  intro d hd
+  have hns := h.noSigma
+  simp only [Prog.noSigma, List.all_eq_true, Bool.and_eq_true, bne_iff_ne] at hns
+  intro i hi
+  simp only [ctxVars, List.mem_map] at hi
+  obtain ⟨b, hb, rfl⟩ := hi
+  exact (hns d hd).1 b hb
+
+/-- the uniquified program satisfies the hypotheses of the focusing simulation on its own -/
+theorem Input.focusInput_uniq {p : Prog} (h : Input p) (hpf : p.focusPanicFree = true) :
+    FocusInput (uniquifyProg p) (uniquifyProg p) :=
+  ⟨rfl, DefsAlpha.refl _,
+    uniquifyProg_oks p (uniqInput_of_typed p h.typed h.bindersZero h.occsOld) (h.oks hpf) h.ctxNames,
+    (h.focusInput hpf).fresh⟩
+
+theorem Input.sigLt {p : Prog} (h : Input p) : ∀ d ∈ p.defs, FocusSim.SigLt 0 d.body.idents := by
+  intro d hd i hi hn
+  have hns := h.noSigma
+  simp only [Prog.noSigma, List.all_eq_true, Bool.and_eq_true] at hns
+  exact absurd hn (Stmt.noSigma_idents d.body (hns d hd).2 i hi)
+
+theorem Input.sigLt_uniq {p : Prog} (h : Input p) :
+    ∀ d ∈ (uniquifyProg p).defs, FocusSim.SigLt 0 d.body.idents := by
+  have hn := uniquifyDefs_names (· ≠ "ς") p.defs p.maxId (fun d hd =>
+    ⟨h.ctxNames d hd, fun i hi hn => by have := h.sigLt d hd i hi hn; omega⟩)
+  intro d hd i hi hnm
+  exact absurd hnm (hn d hd i hi)
+
+/-- **uniquify does not change the runs of the ς-machine**: equal behaviours for EVERY fuel
+    (the two programs run in lock-step) -/
+theorem C03_uniquify_run_eq (p : Prog) (h : Input p) (args : List (BitVec 64)) (f : Nat) :
+    run p args f = run (uniquifyProg p) args f :=
+  AlphaSim.alpha_run_eq (p1 := p) (p2 := uniquifyProg p) rfl (C03_uniquify_alpha_static p h)
+    h.sigLt h.sigLt_uniq args f
+
+/-- **T2 at full strength: `C03_uniquify_alpha` is a theorem** -/
+theorem C03_uniquify_alpha_proved : C03_uniquify_alpha := fun p h args =>
+  ObsEq.of_runs (fun f => ⟨f, (C03_uniquify_run_eq p h args f).symm⟩)
+    (fun f => ⟨f, C03_uniquify_run_eq p h args f⟩)
+
+theorem C03_uniquify_alpha_panicFree (p : Prog) (h : Input p) (_hpf : p.focusPanicFree = true)
+    (args : List (BitVec 64)) : ObsEq (run p args) (run (uniquifyProg p) args) :=
+  C03_uniquify_alpha_proved p h args
+
+theorem C03_uniquify_alpha_typesDisjoint (p : Prog) (h : Input p)
+    (_hd : Scc.Pipeline.typesDisjoint p = true) (args : List (BitVec 64)) :
+    ObsEq (run p args) (run (uniquifyProg p) args) :=
+  C03_uniquify_alpha_proved p h args
+
+/-- the ς-machine is invariant under α-equivalence of programs (equal nameless forms,
+    definition-wise), for programs without ς-names -/
+theorem C03_machine_alpha_invariant (p1 p2 : Prog) (hc : p1.codataTypes = p2.codataTypes)
+    (hα : DefsAlpha p1.defs p2.defs) (h1 : ∀ d ∈ p1.defs, FocusSim.SigLt 0 d.body.idents)
+    (h2 : ∀ d ∈ p2.defs, FocusSim.SigLt 0 d.body.idents) (args : List (BitVec 64)) (f : Nat) :
+    run p1 args f = run p2 args f :=
+  AlphaSim.alpha_run_eq hc hα h1 h2 args f
+
+/-! ## the literal statements are refuted by the model (why the extra hypothesis is needed) -/
+
+theorem fsStepN_stable (q : FsProg) : ∀ (f : Nat) (st : FsState) (b : Behaviour),
+    fsStepN q f st = b → b.res ≠ .outOfFuel → ∀ k, fsStepN q (f + k) st = b
+  | 0, st, b, h, hb, _ => by
+    simp only [fsStepN] at h
+    subst h
+    exact absurd rfl hb
+  | f + 1, st, b, h, hb, k => by
+    rw [show f + 1 + k = (f + k) + 1 by omega]
+    simp only [fsStepN] at h ⊢
+    cases hs : fsStep q st with
+    | next st' => rw [hs] at h; exact fsStepN_stable q f st' b h hb k
+    | final r => rw [hs] at h; exact h
+
+theorem fsRun_stable (q : FsProg) (args : List (BitVec 64)) (f : Nat) (b : Behaviour)
+    (h : fsRun q args f = b) (hb : b.res ≠ .outOfFuel) (k : Nat) : fsRun q args (f + k) = b := by
+  unfold fsRun at h ⊢
+  split
+  · next hd => simp only [hd] at h; exact h
+  · next d hd =>
+    simp only [hd] at h
+    split
+    · next e he => simp only [he] at h; exact h
+    · next ρ he => simp only [he] at h; exact fsStepN_stable q f _ b h hb k
+
+/-- a well-typed program (type `T` is declared both as data and as codata type) with a cut
+    `⟨K(μa. print 1; ⟨5|a⟩) | D(μb. print 2; ⟨6|b⟩)⟩`: the ς-machine evaluates both arguments,
+    `focus` (Rust: panics in `Xtor::focus`; model: `panicTerm`) drops the destructor -/
+def badProg : Prog :=
+  let T : Ident := ⟨"T", 0⟩
+  let muPrint (k : Int) (a : String) : Term :=
+    .mu .prd ⟨a, 0⟩ .i64 (.print true (.lit k) (.cut .i64 (.lit (k + 4)) (.var .cns ⟨a, 0⟩ .i64)))
+  { defs := [⟨⟨"main", 0⟩, [],
+      .cut (.decl T)
+        (.xtor .prd ⟨"K", 0⟩ (.cons .prd (muPrint 1 "a") .nil) (.decl T))
+        (.xtor .cns ⟨"D", 0⟩ (.cons .prd (muPrint 2 "b") .nil) (.decl T))⟩],
+    dataTypes := [⟨T, [⟨⟨"K", 0⟩, [⟨⟨"x", 0⟩, .prd, .i64⟩]⟩]⟩],
+    codataTypes := [⟨T, [⟨⟨"D", 0⟩, [⟨⟨"y", 0⟩, .prd, .i64⟩]⟩]⟩], maxId := 0 }
+
+/-- `focusProg badProg` (as computed by the model; `lit 0` is `panicTerm`) -/
+def badFocused : FsProg :=
+  let T : Ident := ⟨"T", 0⟩
+  { defs := [⟨⟨"main", 0⟩, [],
+      .cut .i64
+        (.mu .prd ⟨"a", 1⟩ .i64 (.cut .i64 (.lit 1) (.mu .cns ⟨"x", 4⟩ .i64
+          (.print true ⟨"x", 4⟩ (.cut .i64 (.lit 5) (.var .cns ⟨"a", 1⟩ .i64))))))
+        (.mu .cns ⟨"x", 3⟩ .i64 (.cut (.decl T)
+          (.xtor .prd ⟨"K", 0⟩ [⟨⟨"x", 3⟩, .prd, .i64⟩] (.decl T)) (.lit 0)))⟩],
+    dataTypes := [⟨T, [⟨⟨"K", 0⟩, [⟨⟨"x", 0⟩, .prd, .i64⟩]⟩]⟩],
+    codataTypes := [⟨T, [⟨⟨"D", 0⟩, [⟨⟨"y", 0⟩, .prd, .i64⟩]⟩]⟩], maxId := 4 }
+
+theorem badProg_input : Input badProg where
+  typed := by decide
+  bindersZero := by
+    simp [Prog.BindersZero, badProg, Def.ids, ctxIds, Stmt.binderIds, Term.binderIds,
+      Args.binderIds]
+  occsOld := by simp [Prog.OccsOld, badProg, Stmt.occIds, Term.occIds, Args.occIds]
+  noSigma := by decide
+
+theorem badProg_focus : focusProg badProg = badFocused := by
+  have hU : uniquifyProg badProg =
+      { defs := [⟨⟨"main", 0⟩, [],
+          .cut (.decl ⟨"T", 0⟩)
+            (.xtor .prd ⟨"K", 0⟩ (.cons .prd (.mu .prd ⟨"a", 1⟩ .i64 (.print true (.lit 1)
+              (.cut .i64 (.lit 5) (.var .cns ⟨"a", 1⟩ .i64)))) .nil) (.decl ⟨"T", 0⟩))
+            (.xtor .cns ⟨"D", 0⟩ (.cons .prd (.mu .prd ⟨"b", 2⟩ .i64 (.print true (.lit 2)
+              (.cut .i64 (.lit 6) (.var .cns ⟨"b", 2⟩ .i64)))) .nil) (.decl ⟨"T", 0⟩))⟩],
+        dataTypes := badProg.dataTypes, codataTypes := badProg.codataTypes, maxId := 2 } := by
+    simp [uniquifyProg, badProg, uniquifyDefs, uniquifyDef, uniquifyCtx, substIfAny, uniquifyStmt,
+      uniquifyTerm, uniquifyArgs, freshIdentifier, substStmt, substTerm, substFind]
+  rw [focusProg, hU]
+  rfl
+
+/-- the hypothesis `focusPanicFree` is necessary: **`C03_focus_sem` as stated is false** -/
+theorem C03_focus_sem_refuted : ¬ C03_focus_sem := by
+  intro h
+  obtain ⟨f', hf'⟩ := (h badProg badProg_input []).2.1 11
+  rw [badProg_focus] at hf'
+  have h11 : (run badProg [] 11).out = [(true, 1), (true, 2)] := by decide
+  rw [h11] at hf'
+  have hlen : (fsRun badFocused [] f').out.length ≤ 1 := by
+    by_cases hle : 5 ≤ f'
+    · obtain ⟨k, rfl⟩ := Nat.exists_eq_add_of_le hle
+      rw [fsRun_stable badFocused [] 5 _ rfl (by decide) k]
+      decide
+    · have : f' = 0 ∨ f' = 1 ∨ f' = 2 ∨ f' = 3 ∨ f' = 4 := by omega
+      rcases this with rfl | rfl | rfl | rfl | rfl <;> decide
+  have := hf'.length_le
+  simp only [List.length_cons, List.length_nil] at this
+  omega
+
+/-- … and so is `C03_statement` (it contains `C03_focus_sem`) -/
+theorem C03_statement_refuted : ¬ C03_statement :=
+  fun h => C03_focus_sem_refuted (fun p hp => (h p hp).1)
+
 /-! ## non-vacuity -/
 
 /-- `def main() { ⟨(1 + 2) | μ~x. println_i64(x); exit x⟩ }`, all ids 0 -/
@@ -335,6 +660,53 @@ example : ∃ S, (Stmt.print true (.lit 5) (.exit (.lit 0) .i64)).split = some (
     hypothesis of `C03_focusOnly_sem` -/
 example : focusReady exProg = true := by decide
 
+/-- … and those of `C03_statement_typesDisjoint` / `C03_focus_sem_panicFree` -/
+example : Scc.Pipeline.typesDisjoint exProg = true ∧ exProg.focusPanicFree = true := by decide
+
+/-- a program with a data type: `⟨Cons(1 + 2, Nil) | case { Nil ⇒ exit 0, Cons(x, xs) ⇒ print x; exit x }⟩`
+    (a constructor with an operator and a constructor as arguments, a `case`), all ids 0 -/
+def exProg2 : Prog :=
+  let L : Ident := ⟨"List", 0⟩
+  let x : Ident := ⟨"x", 0⟩
+  { defs := [⟨⟨"main", 0⟩, [],
+      .cut (.decl L)
+        (.xtor .prd ⟨"Cons", 0⟩
+          (.cons .prd (.op (.lit 1) .sum (.lit 2))
+            (.cons .prd (.xtor .prd ⟨"Nil", 0⟩ .nil (.decl L)) .nil)) (.decl L))
+        (.xcase .cns (.decl L)
+          (.cons ⟨"Nil", 0⟩ [] (.exit (.lit 0) .i64)
+            (.cons ⟨"Cons", 0⟩ [⟨x, .prd, .i64⟩, ⟨⟨"xs", 0⟩, .prd, .decl L⟩]
+              (.print true (.var .prd x .i64) (.exit (.var .prd x .i64) .i64)) .nil)))⟩],
+    dataTypes := [⟨L, [⟨⟨"Nil", 0⟩, []⟩,
+      ⟨⟨"Cons", 0⟩, [⟨x, .prd, .i64⟩, ⟨⟨"xs", 0⟩, .prd, .decl L⟩]⟩]⟩],
+    codataTypes := [], maxId := 0 }
+
+/-- `exProg2` satisfies the hypotheses of `C03_statement_typesDisjoint`, `C03_focus_sem_panicFree`,
+    `C03_uniquify_alpha_proved` (`Input`) and `C03_focusOnly_sem` (`focusReady`) -/
+example : Input exProg2 where
+  typed := by decide
+  bindersZero := by
+    simp [Prog.BindersZero, exProg2, Def.ids, ctxIds, Stmt.binderIds, Term.binderIds,
+      Args.binderIds, Clauses.binderIds]
+  occsOld := by
+    simp [Prog.OccsOld, exProg2, Stmt.occIds, Term.occIds, Args.occIds, Clauses.occIds]
+  noSigma := by decide
+
+example : Scc.Pipeline.typesDisjoint exProg2 = true ∧ exProg2.focusPanicFree = true ∧
+    focusReady exProg2 = true := by decide
+
+/-- the hypotheses of `C03_focusOnly_sem_alpha` / `C03_machine_alpha_invariant` -/
+example : FocusInput exProg2 exProg2 := focusReady_input (by decide)
+
+/-- the hypotheses of `C03_sigma_focus`: `print (5); exit 0` read as `S[5]`, the name `ς₀` -/
+example : ∃ S, (Stmt.print true (.lit 5) (.exit (.lit 0) .i64)).split = some (.prd, .lit 5, S) ∧
+    (Term.lit 5).pcOk .prd = true ∧
+    sigmaName 0 ∉ (Stmt.print true (.lit 5) (.exit (.lit 0) .i64)).idents ∧
+    (∀ m, ¬ Gen m (sigmaName 0)) ∧
+    FreshL 0 (Stmt.print true (.lit 5) (.exit (.lit 0) .i64)).idents :=
+  ⟨_, rfl, rfl, by simp [Stmt.idents, Term.idents], FocusSim.not_gen_sigma 0,
+    by simp [Stmt.idents, Term.idents]⟩
+
 end Scc.Props
 
 #print axioms Scc.Props.C03_unique_binders
@@ -351,3 +723,14 @@ end Scc.Props
 #print axioms Scc.Props.C03_focusOnly_fuel
 #print axioms Scc.Props.C03_sigma_focus
 #print axioms Scc.Props.C03_focus_cong
+#print axioms Scc.Props.C03_uniquify_alpha_static
+#print axioms Scc.Props.C03_focus_sem_panicFree
+#print axioms Scc.Props.C03_focus_sem_fuel
+#print axioms Scc.Props.C03_focus_sem_typesDisjoint
+#print axioms Scc.Props.C03_statement_typesDisjoint
+#print axioms Scc.Props.C03_statement_panicFree
+#print axioms Scc.Props.C03_uniquify_run_eq
+#print axioms Scc.Props.C03_uniquify_alpha_proved
+#print axioms Scc.Props.C03_machine_alpha_invariant
+#print axioms Scc.Props.C03_focus_sem_refuted
+#print axioms Scc.Props.C03_statement_refuted
